@@ -7,15 +7,21 @@ import FxVerif.Proofs.C08Run
 import FxVerif.Proofs.C08Ext
 import FxVerif.Proofs.C08Fam
 import FxVerif.Proofs.C08Hist
+import FxVerif.Proofs.C08Hist4
 import FxVerif.Model.C08Cache
 import FxVerif.Proofs.C08Cache
 import FxVerif.Model.C08Journal
 import FxVerif.Proofs.C08Journal
+import FxVerif.Proofs.C08Journal4
 import FxVerif.Gen.C04
 import FxVerif.Gen.C08
 import FxVerif.Gen.C08b
 import FxVerif.Gen.C08c
 import FxVerif.Proofs.C08Wrap
+import FxVerif.Model.C08Gen
+import FxVerif.Proofs.C08Gen
+import FxVerif.Model.C08Sol
+import FxVerif.Gen.C08d
 /-!
 # C08 — coin ↔ ERC-20 conversion conserves value and keeps the token-pair books balanced
 
@@ -923,6 +929,65 @@ example : ∀ op ∈ ([.convertCoin 1 0 6 3, .convertERC20 11 1 2 4, .convertDen
   simp only [List.mem_cons, List.not_mem_nil, or_false] at hop
   rcases hop with rfl | rfl | rfl | rfl <;> simp [UOp.addrsIn, partyAddr]
 
+/-! #### round 4: I_family along whole histories; the pair's own contract alive is all that is assumed about self-destruction -/
+
+/-- **I_family along EVERY history, exactly** (induction over the op list; the alias set of the pair moving along the way):
+for a registered module-owned pair whose own contract has not self-destructed, (supply of the base coin − alias coins
+escrowed by the erc20 module, over the aliases the metadata lists AT THE END) equals the same difference over the aliases
+listed at the start plus `famDrift` — the sum, over the successful `MsgUpdateDenomAlias` on the pair's denomination, of the
+alias coins the module already held when the alias entered (−) or left (+) the list.  No conversion, registration, toggle,
+parameter update or removal of ANOTHER pair (self-destructed contracts) contributes anything. -/
+theorem family_books_all_histories (s : UState) (hi : IdxInv s.idx) (hm : MdInv s.idx) (ops : List UOp)
+    (hf : FreshRun s ops) (hw : WellFormedRun ops) (id : PairId) (p : Pair) (hp : lookup id s.idx.pairs = some p)
+    (hext : p.external = false) (hlive : s.dead.contains p.contract = false) :
+    famBook (runU s ops) p = famBook s p + famDrift p.denom s ops :=
+  famBook_runU s hi hm ops hf hw id p hp hext hlive
+
+/-- **I_family is an invariant of every history without an alias update on the pair's own denomination** -/
+theorem family_books_preserved_all_histories (s : UState) (hi : IdxInv s.idx) (hm : MdInv s.idx) (ops : List UOp)
+    (hf : FreshRun s ops) (hw : WellFormedRun ops) (id : PairId) (p : Pair) (hp : lookup id s.idx.pairs = some p)
+    (hext : p.external = false) (hlive : s.dead.contains p.contract = false)
+    (hops : ∀ op ∈ ops, ∀ a, op ≠ .idx (.updateAlias p.denom a)) :
+    famBook (runU s ops) p = famBook s p := by
+  rw [famBook_runU s hi hm ops hf hw id p hp hext hlive, famDrift_zero p.denom s ops hops]; omega
+
+/-- **I_module along EVERY history, exactly, other pairs being removed or not**: escrow − supply at the end = at the start +
+the donations of the history (ERC-20 → coin conversions naming the pair's own escrow account as receiver), which are ≥ 0.
+Only the pair's OWN contract is assumed alive (`module_books_preserved_all_messages` assumed no self-destructed contract
+at all). -/
+theorem module_books_all_histories (s : UState) (hi : IdxInv s.idx) (ops : List UOp) (hf : FreshRun s ops)
+    (id : PairId) (p : Pair) (hp : lookup id s.idx.pairs = some p) (hext : p.external = false)
+    (hlive : s.dead.contains p.contract = false) :
+    (bookM p.denom p.contract (decide (p.denom = 0))).val (runU s ops).L =
+      (bookM p.denom p.contract (decide (p.denom = 0))).val s.L + donationRun p.denom p.contract s ops ∧
+    0 ≤ donationRun p.denom p.contract s ops :=
+  ⟨bookM_runU_live s hi ops hf id p hp hext hlive, donationRun_nonneg _ _ _ _⟩
+
+/-- **I_external along EVERY history, exactly, other pairs being removed or not** (`external_books_all_histories` with
+`s.dead = []` weakened to "the pair's own contract is alive") -/
+theorem external_books_all_histories_live (s : UState) (hi : IdxInv s.idx) (hm : MdInv s.idx)
+    (ops : List UOp) (hf : FreshRun s ops) (hw : WellFormedRun ops) (id : PairId) (p : Pair)
+    (hp : lookup id s.idx.pairs = some p) (hext : p.external = true) (hlive : s.dead.contains p.contract = false) :
+    extBook (runU s ops) p = extBook s p + extDrift p s ops :=
+  extBook_runU_live s hi hm ops hf hw id p hp hext hlive
+
+/-- the hypotheses are met by a history in which ANOTHER token's contract has self-destructed and its pair is removed by a
+conversion, while the module-owned token 1 (aliases 110, then also 111) converts between its denominations: the pair of
+contract 12 disappears, the family book of token 1 moves only by the alias coins the module held when alias 111 entered -/
+example :
+    let L0 : Ledger := ⟨fun a x => if a = coinAsset 110 ∧ x = .user 0 then 40 else if a = coinAsset 3 ∧ x = .user 1 then 9 else 0,
+      fun a => if a = coinAsset 110 then 40 else if a = coinAsset 3 then 9 else 0, fun _ => none⟩
+    let s0 : UState := ⟨genesisIdx, L0, true, [12]⟩
+    let ops : List UOp := [.idx (.registerCoin 1 10 [110]), .idx (.registerCoin 3 12 []), .convertDenom 110 0 0 15 none,
+      .convertCoin 3 1 1 4, .idx (.updateAlias 1 111), .convertDenom 1 0 0 5 (some 0)]
+    FreshRun s0 ops ∧ WellFormedRun ops ∧ (runU s0 ops).dead.contains 10 = false ∧
+    pairByDenom (runU s0 ops).idx 3 = none ∧ famBook (runU s0 ops) ⟨1, 10, true, false⟩ = 0 := by
+  refine ⟨?_, ?_, by decide, by decide, by decide⟩
+  · refine ⟨?_, ?_, trivial, trivial, trivial, trivial, trivial⟩ <;> (simp only [UOp.fresh, IOp.fresh]; decide)
+  · intro op hop
+    simp only [List.mem_cons, List.not_mem_nil, or_false] at hop
+    rcases hop with rfl | rfl | rfl | rfl | rfl | rfl <;> simp [UOp.wellFormed]
+
 end Histories
 
 /-! ### keeper-level token calls: the regenerated success predicate of the evm keeper's ERC-20 wrappers -/
@@ -1139,6 +1204,166 @@ theorem mixed_tx_reverted_write_creates_tokens :
     tokDiff [0, 1, 2] r.2.1 = tokDiff [0, 1, 2] (store0 50 0 0 100 0) + 50 := by
   decide
 
+/-! #### round 4: frames that fail AFTER completing keeper-level calls -/
+
+/-- **a failed, swallowed sub-call frame is invisible — wherever it fails**: for EVERY group of calls run as a frame from ANY
+StateDB state with consistent caches, if the frame is coherent where it runs and fails — before, between or after any
+number of COMPLETED keeper-level nested calls — and every value it leaves in `originStorage` is the value the restored
+native store holds for that slot (`OriginAgrees`: the running EVM loaded no slot during the frame after a keeper-level call
+of the frame had changed it), then after `RevertToSnapshot` the StateDB presents exactly the values it presented before
+the frame, would commit exactly the same storage, and its caches are consistent again.  `failed_frame_is_invisible` is the
+special case in which the store did not move (`noNestedSuccess`). -/
+theorem failed_frame_is_invisible_general (g : List MStep) (s : TxSt) (h : Cons s.o) (hco : CoherentTx g s)
+    (hf : (runTxF g s).2 = false) (hag : OriginAgrees s.o (runTxF g s).1.o) :
+    (s.o.revertTo (runTxF g s).1.o).view = s.o.view ∧ (s.o.revertTo (runTxF g s).1.o).commit = s.o.commit ∧
+    Cons (s.o.revertTo (runTxF g s).1.o) := by
+  obtain ⟨he, hc⟩ := runTxF_fail_extC g s.o s (extC_refl _) h hco hf
+  obtain ⟨v1, v2⟩ := revertTo_spec_general s.o _ h hc.dirty_ok he hag
+  exact ⟨v1, by rw [commit_eq_view _ v2, commit_eq_view _ h, v1], v2⟩
+
+/-- **mixed_tx_coherent with frames, general**: the frames may fail anywhere.  For EVERY transaction made of contract
+programs, keeper-level nested calls and swallowed frames: coherent steps / frames + `OriginAgrees` at every failing frame
+=> outcome, final token storage and final escrow equal the sequential execution with each failed frame skipped. -/
+theorem mixed_tx_frames_coherent_general (steps : List XStep) (st : Store) (esc : Nat)
+    (hc : CoherentXG steps ⟨{ store := st }, esc⟩) : txResultX steps st esc = seqResultX steps st esc :=
+  txResultX_coherentG steps st esc hc
+
+/-- the general condition is implied by the round-3 one (so `mixed_tx_frames_coherent` is a corollary of the general
+theorem), from every consistent StateDB state -/
+theorem coherent_frames_general_subsumes (steps : List XStep) (s : TxSt) (h : Cons s.o) (hc : CoherentX steps s) :
+    CoherentXG steps s :=
+  coherentX_imp_general steps s h hc
+
+/-- I_sum under mixing with frames failing anywhere -/
+theorem mixed_tx_frames_preserve_sum_general_partial (hs : List Nat) (hn : hs.Nodup) (steps : List XStep)
+    (hm : ∀ x ∈ steps, ∀ s ∈ x.steps, ∃ m : Method, s.prog = m.prog ∧ ∀ a ∈ m.holders, a ∈ hs) (st : Store) (esc : Nat)
+    (hc : CoherentXG steps ⟨{ store := st }, esc⟩) :
+    tokDiff hs (txResultX steps st esc).2.1 = tokDiff hs st := by
+  rw [txResultX_coherentG steps st esc hc]
+  simp only [seqResultX]
+  cases hr : runSeqX steps (st, esc) with
+  | none => rfl
+  | some r => exact runSeqX_tokDiff hs hn steps hm st esc r.1 r.2 hr
+
+/-- the general hypothesis is satisfiable by — and strictly wider on — a frame in which `bridgeCall` COMPLETES a keeper-level
+burn of 20 and a later `transferFrom` above the allowance fails (harness scenario `[ b20 f999 ] t5`): the failing call
+loaded only the allowance slot, which the burn did not change; the round-3 condition rejects this transaction -/
+example :
+    let tx : List XStep := [.attempt [.nested (burn 0 20) 20 0, .evm (transferFrom 0 4 1 999) 0], .plain (.evm (transfer 0 1 5) 0)]
+    CoherentXG tx ⟨{ store := store0X 50 0 0 100 0 30 10 }, 100⟩ ∧
+    coherentXB tx ⟨{ store := store0X 50 0 0 100 0 30 10 }, 100⟩ = false ∧
+    txResultX tx (store0X 50 0 0 100 0 30 10) 100 = seqResultX tx (store0X 50 0 0 100 0 30 10) 100 := by
+  refine ⟨by rw [← coherentXGB_iff]; decide, by decide, ?_⟩
+  exact txResultX_coherentG _ _ _ (by rw [← coherentXGB_iff]; decide)
+
+/-- witness 6 (what `OriginAgrees` excludes; observed on the real EVM, `[ b20 t99999 ] t5`): a frame completes a keeper-level
+burn of 20, then a transfer of more than the balance fails — it has loaded the POST-burn balance 30 into `originStorage`; the
+revert restores the store (balance 50, supply 100) but not the cache, so the later transfer of 5 starts from 30: the holder
+loses 20 tokens that were never converted -/
+theorem mixed_tx_failed_frame_caches_reverted_burn :
+    let tx : List XStep := [.attempt [.nested (burn 0 20) 20 0, .evm (transfer 0 1 99999) 0], .plain (.evm (transfer 0 1 5) 0)]
+    let r := txResultX tx (store0 50 0 0 100 0) 100
+    coherentXGB tx ⟨{ store := store0 50 0 0 100 0 }, 100⟩ = false ∧
+    r.1 = true ∧ r.2.1 (.bal 0) = 25 ∧ r.2.1 (.bal 1) = 5 ∧ r.2.1 .supply = 100 ∧ r.2.2 = 100 ∧
+    tokDiff [0, 1, 2] r.2.1 = tokDiff [0, 1, 2] (store0 50 0 0 100 0) - 20 := by
+  decide
+
 end Frames
+
+
+/-! ### erc20 genesis export / import (Model/C08Gen.lean, round 4) -/
+
+section Genesis
+open FxVerif.Proofs.C08 FxVerif.Gen.C08d
+
+/-- what `InitGenesis` / `ExportGenesis` are, read off the AST: the exported state is the parameters and the pair records;
+the import loop starts with `AddTokenPair`; whether it restores the alias index is `restoresAliases` of the very list -/
+theorem genesis_calls_match_code :
+    exportGenesis_fields = [("Params", "GetParams"), ("TokenPairs", "GetAllTokenPairs")] ∧
+    initGenesis_loop_calls.head? = some "AddTokenPair" := by
+  decide
+
+/-- **the round trip keeps every pair**: for EVERY store satisfying I_index, export followed by import into a fresh store
+answers every lookup of the pair records, of the denom index and of the contract index exactly as before, and the bank
+metadata (imported by the bank module) is the same — whatever the import does about aliases -/
+theorem genesis_round_trip_keeps_pairs (r : Bool) (i : Idx) (hi : IdxInv i) :
+    (∀ id, lookup id (genesisRoundTrip r i).pairs = lookup id i.pairs) ∧
+    (∀ d, lookup d (genesisRoundTrip r i).byDenom = lookup d i.byDenom) ∧
+    (∀ ct, lookup ct (genesisRoundTrip r i).byErc = lookup ct i.byErc) ∧ (genesisRoundTrip r i).md = i.md :=
+  roundTrip_pairs r i hi
+
+/-- **genesis round trip = identity, PROVIDED the import rebuilds the alias index** (`_partial`: the hypothesis is about the
+code — the loop body of `InitGenesis` must call `SetAliasesDenom` with the aliases of the imported pair's bank metadata;
+it is evaluated on the regenerated call list): every lookup of all four indexes and the metadata are unchanged, hence
+I_index and every book over "base + aliases" survive an export / import -/
+theorem genesis_round_trip_identity_partial (i : Idx) (hi : IdxInv i)
+    (hcode : restoresAliases initGenesis_loop_calls = true) :
+    Idx.Same (genesisRoundTrip (restoresAliases initGenesis_loop_calls) i) i := by
+  rw [hcode]
+  obtain ⟨h1, h2, h3, h4⟩ := roundTrip_pairs true i hi
+  exact ⟨h1, h2, h3, roundTrip_alias_restore i hi, h4⟩
+
+/-- the restoring import on a store with aliases: everything comes back -/
+example :
+    let i := (stepIdx genesisIdx (.registerCoin 1 10 [110, 111])).toOption.getD genesisIdx
+    indexOk i = true ∧ indexOk (genesisRoundTrip true i) = true ∧
+    lookup 110 (genesisRoundTrip true i).aliasIdx = some 1 ∧ lookup 111 (genesisRoundTrip true i).aliasIdx = some 1 := by
+  decide
+
+/-- witness (an import that only calls `AddTokenPair`): a store satisfying I_index in which denomination 1 owns the aliases
+110 and 111 comes back with an EMPTY alias index while the bank metadata still lists both aliases — I_index is broken, the
+family of alias 110 is no longer found (`MsgConvertDenom` of alias coins fails) and the alias can be registered again for
+another token -/
+theorem genesis_round_trip_without_alias_restore_breaks_index :
+    let i := (stepIdx genesisIdx (.registerCoin 1 10 [110, 111])).toOption.getD genesisIdx
+    let i' := genesisRoundTrip false i
+    indexOk i = true ∧ indexOk i' = false ∧ i'.aliasIdx = [] ∧ lookup 1 i'.md = some [110, 111] ∧
+    (familyOf i 110).isSome = true ∧ familyOf i' 110 = none ∧
+    (stepIdx i (.registerCoin 2 11 [110])).toOption.isSome = false ∧
+    (stepIdx i' (.registerCoin 2 11 [110])).toOption.isSome = true := by
+  decide
+
+end Genesis
+
+/-! ### the FIP20 slot programs are the Solidity source (Model/C08Sol.lean, Gen/C08d.lean, round 4) -/
+
+section Fip20Source
+open FxVerif.Model.C08Cache FxVerif.Gen.C08d
+
+/-- **the token programs of the mixed-transaction model are what FIP20Upgradable.sol says**: for EVERY method call
+(`transfer`, `approve`, `transferFrom`, `mint`, `burn`, with any caller and any arguments) the slot program obtained by
+compiling the method's body — regenerated statement by statement from the Solidity source on every run, internal calls
+(`_transfer`, `_mint`, `_burn`, `_approve`) included — IS the program the StateDB cache / journal theorems are about.  A
+changed statement, a reordered pair of statements, a dropped `require`, a `+=` turned into `=` breaks this proof. -/
+theorem fip20_programs_match_code (m : Method) : m.compiled = m.prog := by
+  cases m <;> rfl
+
+/-- the coherence / I_sum theorems restated over the compiled programs: a transaction whose steps are COMPILED method calls
+between counted holders keeps "Σ balances − totalSupply" when coherent -/
+theorem mixed_tx_preserves_sum_compiled_partial (hs : List Nat) (hn : hs.Nodup) (steps : List MStep)
+    (hm : ∀ s ∈ steps, ∃ m : Method, s.prog = m.compiled ∧ ∀ a ∈ m.holders, a ∈ hs) (st : Store) (esc : Nat)
+    (hc : CoherentTx steps ⟨{ store := st }, esc⟩) :
+    FxVerif.Proofs.C08Cache.tokDiff hs (txResult steps st esc).2.1 = FxVerif.Proofs.C08Cache.tokDiff hs st :=
+  mixed_tx_preserves_sum_partial hs hn steps
+    (fun s h => by obtain ⟨m, h1, h2⟩ := hm s h; exact ⟨m, by rw [h1, fip20_programs_match_code], h2⟩) st esc hc
+
+/-- **storage layout**: `_totalSupply`, `_balanceOf` and `_allowance` are the 4th, 5th and 6th state variables of the
+contract, each of a type that takes a whole slot, so they live in three different slots (base + 3, + 4, + 5; the harness
+reads these raw slots of the deployed token and compares them with `totalSupply()` / `balanceOf()` / `allowance()`), and the
+model's `Slot` constructors `.supply`, `.bal`, `.allow` never alias -/
+theorem fip20_layout_matches_model :
+    varPos fip20_stateVars "_totalSupply" = some 3 ∧ varPos fip20_stateVars "_balanceOf" = some 4 ∧
+    varPos fip20_stateVars "_allowance" = some 5 ∧
+    (fip20_stateVars.map Prod.snd).take 6 =
+      ["string", "string", "uint8", "uint256", "mapping(address=>uint256)", "mapping(address=>mapping(address=>uint256))"] := by
+  decide
+
+/-- the compiled `transferFrom` run on a store: allowance and both balances move, the supply does not -/
+example :
+    let r := runPlain (Method.transferFrom 0 4 1 7).compiled (store0X 50 0 0 100 0 30 10)
+    r.1 = true ∧ r.2 (.bal 4) = 23 ∧ r.2 (.bal 1) = 7 ∧ r.2 (.allow 4 0) = 3 ∧ r.2 .supply = 100 := by
+  decide
+
+end Fip20Source
 
 end FxVerif.Props.C08
